@@ -210,6 +210,12 @@ func (e *ControllerEngine) Start(name string, o ...ControllerOption) error {
 	// instead of taking one as an argument.
 	ctx, cancel := context.WithCancel(context.Background())
 
+	r := &controller{
+		ctrl:    c,
+		cancel:  cancel,
+		sources: make(map[WatchID]*StoppableSource),
+	}
+
 	go func() {
 		// Don't start the controller until the manager is elected.
 		<-e.mgr.Elected()
@@ -221,8 +227,10 @@ func (e *ControllerEngine) Start(name string, o ...ControllerOption) error {
 			e.log.Info("Controller stopped with an error", "name", name, "error", err)
 
 			// Make a best effort attempt to cleanup the controller so that
-			// IsRunning will return false.
-			_ = e.Stop(ctx, name)
+			// IsRunning will return false. By now this controller may have
+			// been stopped, and another one started under its name - we must
+			// not stop that one.
+			_ = e.stop(ctx, name, r)
 			return
 		}
 
@@ -243,12 +251,6 @@ func (e *ControllerEngine) Start(name string, o ...ControllerOption) error {
 		}()
 	}
 
-	r := &controller{
-		ctrl:    c,
-		cancel:  cancel,
-		sources: make(map[WatchID]*StoppableSource),
-	}
-
 	e.controllers[name] = r
 
 	return nil
@@ -256,6 +258,12 @@ func (e *ControllerEngine) Start(name string, o ...ControllerOption) error {
 
 // Stop a controller.
 func (e *ControllerEngine) Stop(ctx context.Context, name string) error {
+	return e.stop(ctx, name, nil)
+}
+
+// stop the named controller. If only is not nil, stop it only if it's that
+// controller.
+func (e *ControllerEngine) stop(ctx context.Context, name string, only *controller) error {
 	e.mx.Lock()
 	defer e.mx.Unlock()
 
@@ -263,6 +271,12 @@ func (e *ControllerEngine) Stop(ctx context.Context, name string) error {
 
 	// Stop is a no-op if the controller isn't running.
 	if !running {
+		return nil
+	}
+
+	// The controller running under this name isn't the one we were asked to
+	// stop.
+	if only != nil && c != only {
 		return nil
 	}
 
